@@ -299,7 +299,7 @@ def _grad(i, color):
 
 
 def crafted_docs():
-    out = units_docs() + marker_docs() + [specular_doc(v) for v in SPECULAR_VALUES] + feimage_image_docs() + subregion_docs() + hidden_docs() + nested_docs()
+    out = units_docs() + marker_docs() + [specular_doc(v) for v in SPECULAR_VALUES] + feimage_image_docs() + subregion_docs() + hidden_docs() + nested_docs() + clip_nested_docs()
     # a path whose fill AND stroke are different patterns; what the stroke pattern's content uses is used nowhere else
     for res, attr, definition in [
         ('only-g', 'fill="url(#only-g)"', _grad('only-g', 'red')),
@@ -543,4 +543,33 @@ def nested_docs():
         for order in (0, 1):
             body = ['<rect id="nr" x="5" y="5" width="40" height="40" fill="green" %s/>' % outer_f, img]
             out.append('<svg %s width="100" height="100">%s%s</svg>' % (NS, defs % 1 if defs else '', ''.join(body[::-1] if order else body)))
+    return out
+
+
+def clip_nested_docs():
+    """clipPath children that become groups in usvg (a transform on a text / use, a child with its own clip-path, both): the writer
+    recurses into them (write_clip_path_children) and skips a group only when both levels carry a clip-path"""
+    inner = '<clipPath id="cin"><rect x="10" y="10" width="60" height="60"/></clipPath><clipPath id="cin2"><circle cx="40" cy="40" r="35"/></clipPath>'
+    shape = '<rect id="shc" x="15" y="15" width="50" height="50" clip-path="url(#cin2)"/><rect id="sh" x="5" y="5" width="30" height="30"/><g id="shg" transform="translate(5 5)"><rect width="20" height="20"/><circle cx="30" cy="30" r="8" clip-path="url(#cin2)"/></g>'
+    kids = [
+        '<text x="10" y="50" font-size="40" transform="translate(3 4)">AB</text>',
+        '<text x="10" y="50" font-size="40" transform="rotate(10)" clip-path="url(#cin)">A<tspan fill="red">B</tspan></text>',
+        '<use xlink:href="#sh" transform="translate(20 20)"/><use xlink:href="#sh" x="30" clip-path="url(#cin)"/>',
+        '<rect x="5" y="5" width="50" height="50" clip-path="url(#cin)"/><circle cx="60" cy="60" r="30" transform="scale(0.9)"/>',
+        '<use xlink:href="#sh" clip-path="url(#cin)" transform="translate(10 0)"/><text x="5" y="80" font-size="30">C</text>',
+        '<use xlink:href="#shg" x="10"/>',
+        '<use xlink:href="#shg" x="10" clip-path="url(#cin)"/>',
+        # a group WITHOUT a clip-path (the use's transform) around a group WITH one (the referenced shape's own clip-path): entered
+        '<use xlink:href="#shc" transform="translate(2 2)"/>',
+        '<use xlink:href="#shc" transform="translate(2 2)"/><use xlink:href="#sh" x="40"/>',
+    ]
+    # both levels clipped (`<use clip-path>` of a shape with its own clip-path): write_clip_path_children skips the inner group, the shape is
+    # NOT written and the re-parsed tree is smaller (candidate defect clip-child-double-clip, reported in round 4 third pass; not an input
+    # until the maintainer decides between a fix and a known class):
+    #   '<use xlink:href="#shc" transform="translate(2 2)" clip-path="url(#cin)"/><rect x="50" y="50" width="20" height="20"/>'
+    out = []
+    for k in kids:
+        for outer in ('', ' clip-path="url(#cin2)"'):
+            out.append('<svg %s width="100" height="100"><defs>%s%s<clipPath id="cnest"%s>%s</clipPath></defs>'
+                       '<rect width="100" height="100" fill="green" clip-path="url(#cnest)"/></svg>' % (NS, inner, shape, outer, k))
     return out
